@@ -35,28 +35,37 @@ class User:
         return self.uid
 
 
-class Client(ClientMixin):
+class Client(_M):
+    """The repository's own sqla_oauth2 client mixin, used as it stands (no database: the column attributes are plain instance
+    attributes here).  Registration data lives in the metadata document, as in the mixin; a change to
+    authlib/integrations/sqla_oauth2/client_mixin.py is observed by every check that uses this integrator."""
+
     def __init__(self, client_id, client_secret="", redirect_uris=(), scope="", grant_types=(),
                  response_types=(), token_endpoint_auth_method="client_secret_basic", jwks=None):
         self.client_id = client_id
         self.client_secret = client_secret
-        self.redirect_uris = list(redirect_uris)
-        self.scope = scope
-        self.grant_types = list(grant_types)
-        self.response_types = list(response_types)
-        self.token_endpoint_auth_method = token_endpoint_auth_method
-        self.jwks = jwks
+        self.client_id_issued_at = 0
+        self.client_secret_expires_at = 0
+        self._client_metadata = None
+        md = {"redirect_uris": list(redirect_uris), "scope": scope, "grant_types": list(grant_types),
+              "response_types": list(response_types), "token_endpoint_auth_method": token_endpoint_auth_method}
+        if jwks is not None:
+            md["jwks"] = jwks
+        self.set_client_metadata(md)
 
-    # behaviour is the repository's own sqla_oauth2 client mixin, borrowed unbound so that a change to
-    # authlib/integrations/sqla_oauth2/client_mixin.py is observed by every check that uses this integrator
-    get_client_id = _M.get_client_id
-    get_default_redirect_uri = _M.get_default_redirect_uri
-    get_allowed_scope = _M.get_allowed_scope
-    check_redirect_uri = _M.check_redirect_uri
-    check_client_secret = _M.check_client_secret
-    check_endpoint_auth_method = _M.check_endpoint_auth_method
-    check_response_type = _M.check_response_type
-    check_grant_type = _M.check_grant_type
+    def update_metadata(self, **kw):
+        """what a registration update does: a new metadata document through set_client_metadata"""
+        md = dict(self.client_metadata)
+        md.update(kw)
+        self.set_client_metadata(md)
+
+    # assignment to a registration member rewrites the metadata document
+    scope = property(_M.scope.fget, lambda self, v: self.update_metadata(scope=v))
+    redirect_uris = property(_M.redirect_uris.fget, lambda self, v: self.update_metadata(redirect_uris=list(v)))
+    grant_types = property(_M.grant_types.fget, lambda self, v: self.update_metadata(grant_types=list(v)))
+    response_types = property(_M.response_types.fget, lambda self, v: self.update_metadata(response_types=list(v)))
+    token_endpoint_auth_method = property(_M.token_endpoint_auth_method.fget, lambda self, v: self.update_metadata(token_endpoint_auth_method=v))
+    jwks = property(_M.jwks.fget, lambda self, v: self.update_metadata(jwks=v))
 
 
 class Code(AuthorizationCodeMixin):
